@@ -292,7 +292,29 @@ func ruleCONV1(c *Ctx) {
 			o := ObjOf(p, b.Y)
 			return o != nil && o.Name() == "UndefinedValue"
 		})
-		noTypeSwitch := !containsNode(fd.Body, func(n ast.Node) bool { _, ok := n.(*ast.TypeSwitchStmt); return ok })
+		// no type is singled out for rejection: a type switch, if there is
+		// one, has a default arm, and `ok = true` stands at the top level
+		noTypeSwitch := !containsNode(fd.Body, func(n ast.Node) bool {
+			ts, ok := n.(*ast.TypeSwitchStmt)
+			if !ok {
+				return false
+			}
+			for _, cl := range ts.Body.List {
+				if cl.(*ast.CaseClause).List == nil {
+					return false // has a default arm
+				}
+			}
+			return true
+		})
+		okTop := false
+		for _, st := range fd.Body.List {
+			if as, ok := st.(*ast.AssignStmt); ok && len(as.Lhs) == 1 && len(as.Rhs) == 1 {
+				if b, isB := constBool(p, as.Rhs[0]); isB && b {
+					okTop = true
+				}
+			}
+		}
+		noTypeSwitch = noTypeSwitch && okTop
 		c.check(hasGuard && noTypeSwitch && !want["Undefined"] && len(want) == len(rows)-3, "conv/ToString", fd, "every type but undefined converts", "ToString / documented String column disagree (expected: all types except undefined)")
 	}
 	if fd := w.FuncDecl(p, "ToBool"); fd != nil {
